@@ -71,6 +71,19 @@ def rule_terminators(ck: Check, repo: Repo, folder: Folder, styles: list[dict]) 
             r.violation(f"{EX}._END_PATTERN", f"terminator {e!r} of {users[0]} is not in the reader's end pattern",
                         f"a tag written in a {users} multi-line comment keeps {e!r} as part of its value",
                         repo.loc(repo.module_assign(EX, "_END_PATTERN")))
+    # 'trailing blanks' are part of the quantifier: a terminator followed by blanks must still be stripped
+    n_tb = 0
+    for e in ends:
+        ok_tb = lang.accepts(e + " ") and lang.accepts(e + "\t")
+        n_tb += 1
+        if not ok_tb:
+            users = [s_["name"] for s_ in styles if s_["end"] == e]
+            r.violation(f"{EX}._END_PATTERN", f"terminator {e!r} followed by trailing blanks is not stripped",
+                        f"`… value {e} ` (blank or tab before the line end, styles {users[:3]}): the end pattern is anchored at `$` right after"
+                        f" the terminators, so the lazy value group swallows the terminator; a licence value like `MIT {e}` does not"
+                        f" parse and the file contributes nothing", repo.loc(repo.module_assign(EX, "_END_PATTERN")))
+            break
+    r.instance("trailing-blanks", {"terminators_checked": n_tb})
     for e in SPECIAL_ENDINGS:
         ok = lang.accepts(e)
         r.instance(f"special:{e}", {"ending": e, "strippable": ok})
@@ -82,8 +95,9 @@ def rule_terminators(ck: Check, repo: Repo, folder: Folder, styles: list[dict]) 
     # of the groups.  Reference order = lexicographic order of the escaped fragments (what sorted() over the set gives);
     # every stack the reference order strips must still be stripped (language inclusion; a superset is fine)
     groups = re.findall(r"\(\?:(?:[^()\\]|\\.)*\)\*", endp)
-    if "".join(groups) + "$" == endp and len(groups) >= 10:
-        ref = "".join(sorted(groups)) + "$"
+    tail = endp[len("".join(groups)):] if endp.startswith("".join(groups)) else None
+    if tail in ("$", "[ \\t]*$", "\\s*$", "[ \\t]*\\Z") and len(groups) >= 10:
+        ref = "".join(sorted(groups)) + tail
         alpha2 = Alphabet([(endp, 0), (ref, 0)], extra="".join(ends) + "ab ", exclude="\n\r")
         from ..relang import in_a_not_b
         w = in_a_not_b(Lang.from_regex(ref, 0, alpha2, "full"), Lang.from_regex(endp, 0, alpha2, "full"))
